@@ -193,7 +193,7 @@ Theorem caterpillar_tree_shape n rooted ls :
   3 <= n -> exists t, caterpillar_tree n rooted ls = GOk t /\ caterpillar t = true.
 Proof.
   intros Hn. unfold caterpillar_tree.
-  destruct (Nat.ltb_spec n 2); [lia|]. destruct (Nat.ltb_spec n 3); [lia|]. cbn [andb].
+  destruct (Nat.ltb_spec n 3); [lia|]. cbn [andb].
   destruct (cat_loop_shape rooted (n - 2) 2 (init_state rooted)) as [st [E [I S]]];
     [lia|apply inv_init|apply cat_shape_init|].
   rewrite E. replace (2 + (n - 2)) with n in * by lia.
